@@ -253,6 +253,17 @@ def coq_show(c):
     return "prinz_run (QOps %d) (py_sweep (QOps %d)) %s (mat_fun %s) %s" % (P, P, cn(n), _cmat(c["C"]), cn(k))
 
 
+def _sweep_tol(c):
+    """1e-9, except for counts spread over more than two orders of magnitude: there the code's
+    v = (-b + sqrt(b*b - 4ac)) / (2a) cancels (b > 0, |4ac| << b*b) and a single sweep in doubles is only
+    good to ~1e-9 (seen: 1.2e-9 on the ring 6000, 400, 50000, 8000, 3 against a 60-digit evaluation, which
+    agrees with the model); realistic mutations move the result by 1e-2 or more."""
+    pos = [F(x) for row in c["C"] for x in row if F(x) > 0]
+    if pos and max(pos) / min(pos) > 100:
+        return F(1, 10 ** 6)
+    return TOL_SWEEP
+
+
 def coq_check(c, r):
     n = len(c["C"])
     Cm = _cmat(c["C"])
@@ -266,7 +277,7 @@ def coq_check(c, r):
             elif not ri["warn"]:
                 continue                 # stopped before k sweeps: nothing to compare sweep by sweep
             parts.append("result_near %s (prinz_run (QOps %d) (%s (QOps %d)) %s (mat_fun %s) %s) %s" % (
-                cq(TOL_SWEEP), P, swp, P, cn(n), Cm, cn(c["k"]), _cres(ri)))
+                cq(_sweep_tol(c)), P, swp, P, cn(n), Cm, cn(c["k"]), _cres(ri)))
         return " && ".join("(%s)" % p for p in parts) if parts else None
     parts = []
     for impl in ("mle", "py", "pyx"):
